@@ -44,6 +44,15 @@ def set {α} (s : List α) (i : Int) (v : α) : M (List α) :=
   if 0 ≤ i ∧ i.toNat < s.length then .ok (s.set i.toNat v)
   else .error (.indexRange i.toNat s.length)
 
+/-- `m[k]` on a Go map with string keys, as an association list (the models keep keys distinct);
+    for pointer-valued maps `none` is Go's `nil` -/
+def mapGet {α} : List (Bytes × α) → Bytes → Option α
+  | [], _ => none
+  | (k', v) :: r, k => if k' = k then some v else mapGet r k
+
+/-- `m[k]` on a `map[string]string`: the empty string for a missing key -/
+def mapGetD (m : List (Bytes × Bytes)) (k : Bytes) : Bytes := (mapGet m k).getD []
+
 /-- control outcome of one loop iteration -/
 inductive Ctl (σ ρ : Type) where
   | next (s : σ)      -- fell off the end of the body, or `continue`
